@@ -218,7 +218,25 @@ def _declared_classes(program: Program, owner: ClassInfo, attr: str) -> list:
     return []
 
 
-def _narrow_type_tests(program: Program, f: FuncInfo, test, call, attr, noop):
+def _row_source_holders(program: Program, noop) -> list:
+    sel = program.find_cls("Selectable")
+    if sel is None:
+        return []
+    return [d for d in program.all_classes() if d.is_subclass_of(sel) and d.resolve("replace_table") not in (None, noop)]
+
+
+def _compared_with_current(stmt, name: str, current: str) -> bool:
+    """`<name> == <current_table parameter>` (either order) occurs in the statement"""
+    for c in ast.walk(stmt):
+        if isinstance(c, ast.Compare) and len(c.ops) == 1 and isinstance(c.ops[0], ast.Eq):
+            a, b = c.left, c.comparators[0]
+            for x, y in ((a, b), (b, a)):
+                if isinstance(y, ast.Name) and y.id == current and ast.unparse(x) == name:
+                    return True
+    return False
+
+
+def _narrow_type_tests(program: Program, f: FuncInfo, test, call, attr, noop, row_source=False):
     """[(tested class names, classes left out)] for every positive `isinstance(<receiver of the rewrite>, K)` in `test` whose K
     does not cover every class the attribute may hold that has table references to rewrite"""
     recv = call.func.value
@@ -228,9 +246,16 @@ def _narrow_type_tests(program: Program, f: FuncInfo, test, call, attr, noop):
     out = []
     term = program.cls("Term")
     declared = _declared_classes(program, f.cls, attr) if f.cls is not None and attr else []
-    if not declared:
-        return []       # no declaration to measure the test against
     holders = [d for d in program.all_classes() if any(d.is_subclass_of(k) for k in declared) and d.resolve("replace_table") not in (None, noop)]
+    via_rs = False
+    if not holders and row_source:
+        via_rs = True
+        # a position whose element is also compared with the table being replaced holds ROW SOURCES, whatever the
+        # annotation says (`_from: list[Table]` holds every Selectable that from_() accepts): measured against every row
+        # source class that has table references of its own to rewrite
+        holders = _row_source_holders(program, noop)
+    if not holders:
+        return []       # no declaration to measure the test against
 
     def rec(t, positive):
         if isinstance(t, ast.UnaryOp) and isinstance(t.op, ast.Not):
@@ -246,7 +271,9 @@ def _narrow_type_tests(program: Program, f: FuncInfo, test, call, attr, noop):
                 return
             left = sorted(d.qualname for d in holders if not any(d.is_subclass_of(k) for k in ks))
             if left:
-                out.append(("|".join(k.qualname for k in ks), left))
+                # measured against the row-source classes, the finding is identified by what is LEFT OUT: an extension that
+                # adds its own class to the test leaves the same classes out and is the same finding
+                out.append((("without:" + "|".join(left)) if via_rs else "|".join(k.qualname for k in ks), left))
     rec(test, True)
     return out
 
@@ -401,10 +428,16 @@ def check(program: Program, run: Run) -> None:
                         while st5 in parents and not isinstance(st5, ast.stmt):
                             st5 = parents[st5]
                         a5 = next((a_.attr for a_ in ast.walk(st5) if isinstance(a_, ast.Attribute) and isinstance(a_.value, ast.Name) and a_.value.id == f.params[0]), None)
-                        for narrow, left_out in _narrow_type_tests(program, f, t, n, a5, noop):
+                        cur5 = f.params[1] if len(f.params) > 1 else "current_table"
+                        rs5 = isinstance(n.func.value, (ast.Name, ast.Attribute)) and _compared_with_current(st5, ast.unparse(n.func.value), cur5)
+                        # (measuring a loop element that is compared with the table against every row-source class was tried in
+                        # round 21 and withdrawn: a test split over two branches and extensions with row sources of their own
+                        # were reported; see DESIGN 7.33)
+                        rs5 = False
+                        for narrow, left_out in _narrow_type_tests(program, f, t, n, a5, noop, row_source=rs5):
                             run.ob("C16/R5 child rewritten unconditionally", f"{f.qualname}:{ast.unparse(t)[:50]}", False, where=f.loc(n))
                             run.finding(f"C16/type-test-too-narrow:{f.qualname}:{a5 or '?'}:{narrow}",
-                                        f"{f.qualname} rewrites a child of `{a5}` only when it is a {narrow}; the attribute may also hold {', '.join(left_out[:4])}"
+                                        f"{f.qualname} rewrites a child of `{a5}` only when `{ast.unparse(t)[:70]}`; the attribute may also hold {', '.join(left_out[:4])}"
                                         f"{' ...' if len(left_out) > 4 else ''}, whose table references keep the old table", where=f.loc(n), rule="R5")
                     if not ok5:
                         st5 = n
@@ -664,6 +697,52 @@ def check(program: Program, run: Run) -> None:
                 if not agree:
                     run.finding(f"C16/sibling-disagree:{f.cls.qualname}.{a}", f"{f.qualname} calls self.{a}.replace_table(...) while {sf.qualname} compares self.{a} with the table and assigns: {a} holds a table-like object without replace_table (the base-class form raises TypeError for a Table)",
                                 where=f.loc(), rule="R3")
+
+    # ---- R9: a row source embedded by the object is replaced when it IS the table -- and descended into when it is not.
+    # `if self.item == current_table: self.item = new_table` handles a joined table; a joined subquery (or aliased query)
+    # that mentions the table in its own FROM keeps it unless the same method also calls <source>.replace_table(...)
+    n_r9 = 0
+    holders9 = _row_source_holders(program, noop)
+    for c9 in program.all_classes():
+        f9 = c9.methods.get("replace_table")
+        g9 = c9.resolve("get_sql")
+        if f9 is None or g9 is None or len(f9.params) < 3 or not holders9:
+            continue
+        sn, cur, new_ = f9.params[0], f9.params[1], f9.params[2]
+        for st in ast.walk(f9.node):
+            if not isinstance(st, ast.If):
+                continue
+            # the equality may be one conjunct: `if self.query is not None and self.query == current_table:`
+            conj = st.test.values if isinstance(st.test, ast.BoolOp) and isinstance(st.test.op, ast.And) else [st.test]
+            cmp9 = next((c_ for c_ in conj if isinstance(c_, ast.Compare) and len(c_.ops) == 1 and isinstance(c_.ops[0], ast.Eq)), None)
+            if cmp9 is None:
+                continue
+            l_, r_ = cmp9.left, cmp9.comparators[0]
+            own = l_ if isinstance(r_, ast.Name) and r_.id == cur else (r_ if isinstance(l_, ast.Name) and l_.id == cur else None)
+            if not (isinstance(own, ast.Attribute) and isinstance(own.value, ast.Name) and own.value.id == sn):
+                continue
+            attr9 = own.attr
+            if not any(isinstance(b, ast.Assign) and isinstance(b.value, ast.Name) and b.value.id == new_ and any(
+                    isinstance(t, ast.Attribute) and t.attr == attr9 and isinstance(t.value, ast.Name) and t.value.id == sn for t in b.targets) for b in st.body):
+                continue
+            # the object embeds the source itself (prints <source>.get_sql(...)), not just its name
+            gs = g9.params[0] if g9.params else "self"
+            embeds = any(isinstance(x, ast.Call) and isinstance(x.func, ast.Attribute) and x.func.attr == "get_sql" and isinstance(x.func.value, ast.Attribute)
+                         and x.func.value.attr == attr9 and isinstance(x.func.value.value, ast.Name) and x.func.value.value.id == (km.params[0] if km.params else "self")
+                         for k9 in c9.mro for km in [k9.methods.get("get_sql")] if km is not None for x in ast.walk(km.node))
+            if not embeds:
+                continue
+            n_r9 += 1
+            descends = any(isinstance(x, ast.Call) and isinstance(x.func, ast.Attribute) and x.func.attr == "replace_table" and isinstance(x.func.value, ast.Attribute)
+                           and x.func.value.attr == attr9 and isinstance(x.func.value.value, ast.Name) and x.func.value.value.id == sn for x in ast.walk(f9.node))
+            # ... or stores the result of some <alias>.replace_table(...) back into the attribute (`case QueryBuilder() as q: self.query = q.replace_table(..)`)
+            descends = descends or any(isinstance(b, ast.Assign) and any(isinstance(t, ast.Attribute) and t.attr == attr9 and isinstance(t.value, ast.Name) and t.value.id == sn for t in b.targets)
+                                       and any(isinstance(x, ast.Call) and isinstance(x.func, ast.Attribute) and x.func.attr == "replace_table" for x in ast.walk(b.value)) for b in ast.walk(f9.node))
+            run.ob("C16/R9 an embedded row source that is not the table itself is descended into", f"{f9.qualname}:{attr9}", descends, where=f9.loc(st))
+            if not descends:
+                run.finding(f"C16/row-source-not-descended:{f9.qualname}:{attr9}",
+                            f"{f9.qualname} replaces `{attr9}` when it equals the table but never calls {attr9}.replace_table(...): a subquery, set operation or aliased query held there "
+                            f"({', '.join(h.qualname for h in holders9[:4])}) keeps the old table in its own clauses, and {g9.qualname} prints it", where=f9.loc(st), rule="R9")
 
     # ---- the mechanism keeps no state between renderings (shared rule, see families.inherit_history_dependence)
     from ..families import inherit_history_dependence
